@@ -1,4 +1,10 @@
-"""C17 - the stored merged image is valid and matches the layers after an edit; untouched otherwise."""
+"""C17 - the stored merged image is valid and matches the layers after an edit; untouched otherwise.
+
+Histories may contain several saves ("save" tokens + the implicit final one); the property is evaluated on EVERY file
+written: structure edited at some point before that save => merged image = composite of the layers in that file;
+never edited => image-data section byte-identical to the original. Which of the two applies is decided by the harness's
+own classification of the calls made (STRUCTURAL_NAMES), not by the flag the implementation keeps.
+"""
 from __future__ import annotations
 
 import io
@@ -23,6 +29,33 @@ STRUCT_OPS = ["append", "insert", "pop-append", "rotate", "remove", "delitem", "
 QUIET_OPS = ["rename", "setVisible", "setOpacity", "setBlendMode", "setOffset", "readTopil", "readNumpy",
              "readComposite", "readForcedComposite", "readIterate", "readBbox", "readSave"]
 OP_MODEL_NAME = {"pop-append": "pop,append", "rotate": "pop,insert"}
+# the token "save" inside a history is a CHECKED save: the file it writes is examined like the final one
+# (every history ends with an implicit checked save). For the model it is `readSave`: not structural, and
+# it does not reset the flag.
+SAVE = "save"
+ATTR_OPS = ["setVisible", "setOpacity", "setOffset", "setBlendMode", "rename"]
+VISIBLE_ATTR_OPS = ["setVisible", "setOpacity", "setOffset"]
+# what the PROPERTY counts as an edit of the layer structure (model op names) - the harness's own
+# classification of the public calls, independent of the flag the implementation keeps
+STRUCTURAL_NAMES = {"setitem", "delitem", "append", "extend", "insert", "remove", "pop", "clear", "deleteLayer",
+                    "moveToGroup", "moveUp", "moveDown", "groupLayers", "newGroupInParent"}
+
+
+def two_save_history(rng, shape=None):
+    """histories with more than one save: edit* ; save ; attribute-edit* ; (save)   and relatives"""
+    shape = shape or rng.choice(["edit-save-attr"] * 6 + ["save-save", "attr-save-attr", "edit-save-edit", "edit-save-save"])
+    attrs = [rng.choice(VISIBLE_ATTR_OPS)] + [rng.choice(ATTR_OPS) for _ in range(rng.randrange(0, 2))]
+    rng.shuffle(attrs)
+    edits = ["append"] + [rng.choice(STRUCT_OPS + QUIET_OPS[:-1]) for _ in range(rng.randrange(0, 2))]
+    if shape == "edit-save-attr":
+        return edits + [SAVE] + attrs
+    if shape == "save-save":
+        return [SAVE]
+    if shape == "attr-save-attr":
+        return [rng.choice(ATTR_OPS), SAVE] + attrs
+    if shape == "edit-save-edit":
+        return edits + [SAVE, rng.choice(STRUCT_OPS)] + attrs[:1]
+    return edits + [SAVE, SAVE] + attrs
 
 
 # ---- the image-data section of a saved file, found without the library -----------------------
@@ -117,7 +150,11 @@ def apply_op(psd, op, rng, img_seed):
     elif op == "setBlendMode":
         layers[-1].blend_mode = BlendMode.MULTIPLY
     elif op == "setOffset":
-        layers[-1].offset = (layers[-1].left + 1, layers[-1].top + 1)
+        # position is writable for pixel / type / smart-object / fill / adjustment layers only (C16)
+        movable = [l for l in layers if l.kind in ("pixel", "type", "smartobject")]
+        if not movable:
+            return None
+        movable[-1].offset = (movable[-1].left + 1, movable[-1].top + 1)
     elif op == "readTopil":
         psd.topil()
         layers[-1].topil()
@@ -196,11 +233,9 @@ class Capture:
 
 # ---- one case --------------------------------------------------------------------------------
 def run_case(ctx, label, make_doc, ops, case, original_section=None):
-    """make_doc() -> a freshly opened document; apply ops; save; check."""
+    """make_doc() -> a freshly opened document; apply ops; every "save" token and the end of the history is a
+    checked save: the property is evaluated on EVERY file the history writes."""
     import random
-    from psd_tools import PSDImage
-    from psd_tools.api.numpy_io import has_transparency, get_transparency_index
-    from psd_tools.composite import composite as np_composite
     rng = random.Random(case["op_seed"])
     r = _call(make_doc)
     if r[0] == "err":
@@ -208,19 +243,43 @@ def run_case(ctx, label, make_doc, ops, case, original_section=None):
         return "skipped"
     psd = r[1]
     names = []
-    for op in ops:
-        a = _call(apply_op, psd, op, rng, rng.randrange(1 << 30))
-        if a[0] == "err":
-            ctx.hist("op_raises", f"{op}:{a[1]}")
-            ctx.skipped.append(f"{label}: op {op} raises {a[1]} ({a[2][:60]})") if len(ctx.skipped) < 40 else None
-            return "skipped"
-        if a[1]:
-            names.append(a[1])
+    results = []
+    nsave = 0
+    for op in list(ops) + [SAVE]:
+        if op != SAVE:
+            a = _call(apply_op, psd, op, rng, rng.randrange(1 << 30))
+            if a[0] == "err":
+                ctx.hist("op_raises", f"{op}:{a[1]}")
+                ctx.skipped.append(f"{label}: op {op} raises {a[1]} ({a[2][:60]})") if len(ctx.skipped) < 40 else None
+                return "/".join(dict.fromkeys(results + ["skipped"]))
+            if a[1]:
+                names.append(a[1])
+            continue
+        nsave += 1
+        res, go_on = check_save(ctx, label, psd, names, case, original_section, nsave)
+        results.append(res)
+        names.append("readSave")
+        if not go_on:
+            break
+    ctx.hist("saves_per_history", nsave)
+    return "/".join(dict.fromkeys(results))
+
+
+def check_save(ctx, label, psd, names, case, original_section, nsave):
+    """save `psd` (whose history so far is `names`) and evaluate C17 on the file. -> (result, continue the history?)"""
+    from psd_tools.api.numpy_io import has_transparency, get_transparency_index
+    from psd_tools.composite import composite as np_composite
+    later = "" if nsave == 1 else "/later-save"
+    nth = "" if nsave == 1 else f" (file written by save number {nsave} of the history)"
+    flat_names = [n for x in names for n in x.split(",")]
+    edited = any(n in STRUCTURAL_NAMES for n in flat_names)
     ctx.corr_cases += 1
-    dirty_impl = bool(psd._updated_layers)
+    dirty_impl = bool(getattr(psd, "_updated_layers", False))
     m_dirty = ctx.driver().batch([("merged.dirty", ",".join(names) or "-")])[0]
     if m_dirty[0] != "ok" or (m_dirty[1] == "1") != dirty_impl:
-        ctx.disagree("dirty flag differs from the model", {**case, "impl": dirty_impl, "model": m_dirty})
+        ctx.disagree("dirty flag differs from the model", {**case, "save_number": nsave, "impl": dirty_impl, "model": m_dirty})
+    if m_dirty[0] == "ok" and (m_dirty[1] == "1") != edited:
+        ctx.disagree("the model's notion of a structural edit differs from the harness's", {**case, "model": m_dirty})
     hdr = psd._record.header
     cm = psd.color_mode.name
     w, h, depth, nch = hdr.width, hdr.height, hdr.depth, hdr.channels
@@ -232,24 +291,28 @@ def run_case(ctx, label, make_doc, ops, case, original_section=None):
     with Capture() as cap:
         s = _call(lambda: pc.save_reopen(psd))
     tag = f"{cm}-ch{nch}-depth{depth}"
+    if bool(getattr(psd, "_updated_layers", False)) != dirty_impl:
+        ctx.disagree("save() changed the structural-edit flag (model: save_keeps_dirty)",
+                     {**case, "save_number": nsave, "before": dirty_impl, "after": bool(getattr(psd, "_updated_layers", False))})
     if s[0] == "err":
-        ctx.fail(f"C17/save-raises/{tag}/{s[1]}", f"save() after {'a structural edit' if dirty_impl else 'no structural edit'} raises {s[1]}: {s[2]}",
-                 case, s[1:], "a file")
-        return "save raises " + s[1]
+        ctx.fail(f"C17/save-raises/{tag}/{s[1]}", f"save() after {'a structural edit' if edited else 'no structural edit'} raises {s[1]}: {s[2]}"
+                 + nth, case, s[1:], "a file")
+        return "save raises " + s[1], False
     p2, raw = s[1]
     fh, comp, data = image_data_section(raw)
-    ctx.hist("class", f"{tag}/{['RAW', 'RLE', 'ZIP', 'ZIPP'][comp]}/{'dirty' if dirty_impl else 'clean'}")
+    ctx.hist("class", f"{tag}/{['RAW', 'RLE', 'ZIP', 'ZIPP'][comp]}/{'edited' if edited else 'unedited'}{later}")
 
-    # ---------------- not dirty: byte identity
-    if not dirty_impl:
+    # ---------------- the layer structure was not edited (the harness's classification of the calls made, not the
+    # implementation's flag): the image-data section of EVERY file written is the original one, byte for byte
+    if not edited:
         ref = original_section if original_section is not None else before
         if (comp, data) != ref:
-            ctx.fail(f"C17/unedited-changed/{tag}", "the image-data section changed although nothing structural was edited",
-                     case, {"len": len(data), "compression": comp}, {"len": len(ref[1]), "compression": ref[0]})
-            return "unedited changed"
-        return "preserved"
+            ctx.fail(f"C17/unedited-changed/{tag}{later}", "the image-data section changed although nothing structural was edited"
+                     + nth, case, {"len": len(data), "compression": comp}, {"len": len(ref[1]), "compression": ref[0]})
+            return "unedited changed", True
+        return "preserved", True
 
-    # ---------------- dirty: the model's routes
+    # ---------------- edited: the model's routes
     if cm not in NCOLOR:
         model = ("ok", "none")
     else:
@@ -259,7 +322,7 @@ def run_case(ctx, label, make_doc, ops, case, original_section=None):
     if model[0] == "ok" and model[1] == "none":
         if (comp, data) != before:
             ctx.disagree("model: merged image left alone, implementation rewrote it", case)
-        return "left alone (unsupported mode/depth)"
+        return "left alone (unsupported mode/depth)", True
     if model[0] != "ok":
         ctx.disagree("model answers " + "/".join(model), case)
     # ---------------- the property: plane count and sizes, independent of the library's decoders
@@ -268,13 +331,13 @@ def run_case(ctx, label, make_doc, ops, case, original_section=None):
         pl = detail.get("planes")
         why = f"{pl:g}-planes-for-{nch}-channels" if isinstance(pl, (int, float)) and pl else "wrong-size"
         ctx.fail(f"C17/plane-count/{tag}/{why}", "the merged image written after a structural edit does not have the planes "
-                 "and size the header declares", case, detail, {"planes": nch, "bytes_per_plane": w * h * depth // 8})
+                 "and size the header declares" + nth, case, detail, {"planes": nch, "bytes_per_plane": w * h * depth // 8})
         result = "wrong geometry"
     got = _call(lambda: [bytes(p) for p in p2._record.image_data.get_data(p2._record.header)])
     if got[0] == "err":
         ctx.fail(f"C17/unreadable/{tag}/{['RAW', 'RLE', 'ZIP', 'ZIPP'][comp]}/{got[1]}",
-                 "ImageData.get_data of the reopened file fails", case, got[1:], "the planes")
-        return "unreadable"
+                 "ImageData.get_data of the reopened file fails" + nth, case, got[1:], "the planes")
+        return "unreadable", True
     if len(got[1]) != nch or any(len(p) != w * h * depth // 8 for p in got[1]):
         ctx.fail(f"C17/plane-count/{tag}/get_data-shape", "get_data returns planes of another shape than the header declares",
                  case, [len(p) for p in got[1]], [w * h * depth // 8] * nch)
@@ -290,7 +353,7 @@ def run_case(ctx, label, make_doc, ops, case, original_section=None):
         except Exception as e:  # noqa
             ctx.disagree(f"model sources cannot be realised: {e}", {**case, "model": model})
     elif model[0] == "ok":
-        ctx.disagree("save() did not call the numeric composite", case)
+        ctx.disagree("save() of a structurally edited document did not call the numeric composite" + nth, case)
     vi = p2.has_preview()
     if not vi:
         ctx.fail(f"C17/preview-flag/{tag}/has_preview-false", "the reopened document says it has no merged image although save() wrote one",
@@ -311,7 +374,7 @@ def run_case(ctx, label, make_doc, ops, case, original_section=None):
         ctx.fail(f"C17/merged-vs-composite/{kind}/layers-lost-on-save",
                  "the reopened document has other layers than the saved one, so the merged image cannot match them",
                  case, [x[1] for x in s2], [x[1] for x in s1])
-        return "layers lost"
+        return "layers lost", True
     if s1 != s2:
         attrs = ["kind", "name", "bbox", "visible", "blend_mode", "opacity"]
         diff = sorted({f"{attrs[i]}-of-{a[0]}" for a, b in zip(s1, s2) for i in range(6) if a[i] != b[i]})
@@ -319,11 +382,11 @@ def run_case(ctx, label, make_doc, ops, case, original_section=None):
                  "a layer attribute that the composite depends on is not the same in the reopened file, so the merged "
                  "image (rendered from the layers in memory) cannot match the saved layers", case,
                  [x for x, y in zip(s2, s1) if x != y][:3], [y for x, y in zip(s2, s1) if x != y][:3])
-        return "attribute not persisted"
+        return "attribute not persisted", True
     c2 = _call(lambda: np_composite(p2, force=True))
     if c2[0] == "err":
         ctx.skipped.append(f"{label}: composite of the reopened document raises {c2[1]}")
-        return result
+        return result, True
     color2, _s2, alpha2 = [np.asarray(x, dtype=np.float64) for x in c2[1]]
     if cap.calls:
         c1, _x, a1 = cap.calls[-1]
@@ -339,7 +402,7 @@ def run_case(ctx, label, make_doc, ops, case, original_section=None):
                      "the edited document in memory composites differently from the same layers after reopening, so the "
                      "merged image (rendered in memory) does not match the saved layers", case,
                      float(np.abs(f1 - f2).max()), "same rendering")
-            return "stale render state"
+            return "stale render state", True
     n = NCOLOR[cm]
     flat_comp = color2 * alpha2 + (1.0 - alpha2)
     transparent = nch > n and bool(has_transparency(p2))
@@ -347,7 +410,7 @@ def run_case(ctx, label, make_doc, ops, case, original_section=None):
     arr = _call(lambda: np.asarray(p2.numpy(), dtype=np.float64))
     if arr[0] == "err":
         ctx.fail(f"C17/unreadable/{tag}/numpy-{arr[1]}", "numpy() of the reopened file fails", case, arr[1:], "an array")
-        return "unreadable"
+        return "unreadable", True
     a = arr[1]
     if transparent:
         ti = get_transparency_index(p2) % nch
@@ -360,8 +423,8 @@ def run_case(ctx, label, make_doc, ops, case, original_section=None):
     d_col = float(np.abs(flat_re - flat_comp).max())
     ctx.hist("merged_vs_composite_lsb", min(int(round(max(d_col, d_alpha) * 255)), 9))
     if d_col > lsb or d_alpha > lsb:
-        ctx.fail(f"C17/merged-vs-composite/{tag}/{'alpha' if d_alpha > lsb else 'colour'}-differs",
-                 "numpy() of the reopened file differs from composite(force=True) of its layers by more than 1 LSB",
+        ctx.fail(f"C17/merged-vs-composite/{tag}/{'alpha' if d_alpha > lsb else 'colour'}-differs{later}",
+                 "numpy() of the reopened file differs from composite(force=True) of its layers by more than 1 LSB" + nth,
                  case, {"colour": d_col, "alpha": d_alpha}, "<= 1/255")
         result = "differs from composite"
     # topil() against the same composite
@@ -388,10 +451,10 @@ def run_case(ctx, label, make_doc, ops, case, original_section=None):
         tol = 2.0 / 255 + 1e-6      # 8-bit truncation in _create_image / matte removal on top of the stored rounding
         d = float(np.abs(fl - ref).max())
         if d > tol:
-            ctx.fail(f"C17/merged-vs-composite/{tag}/topil-differs",
-                     "topil() of the reopened file differs from composite(force=True) of its layers", case, d, "<= 2/255")
+            ctx.fail(f"C17/merged-vs-composite/{tag}/topil-differs{later}",
+                     "topil() of the reopened file differs from composite(force=True) of its layers" + nth, case, d, "<= 2/255")
             result = "differs from composite"
-    return result
+    return result, True
 
 
 # ---- the check -------------------------------------------------------------------------------
@@ -401,8 +464,8 @@ def run(ctx: core.Run):
     ctx.trusted_base += [
         "Lean 4.33 kernel; axioms allowed: propext, Classical.choice, Quot.sound (audited per theorem)",
         "Model/Merged.lean: hand transliteration of PSDImage.save / _merged_planes / ImageData.get_data / set_data and of "
-        "what sets _updated_layers; tied by this run's correspondence check (dirty flag per history, source of every "
-        "stored plane against the captured composite)",
+        "what sets _updated_layers; tied by this run's correspondence check (dirty flag per history before and after every "
+        "save, source of every stored plane against the captured composite)",
         "the numeric composite (C11) and the channel codecs (C04) are parameters of the model",
         "harness/pixels_common.section_geometry: independent reading of RAW / RLE (row table + PackBits) / ZIP sections",
     ]
@@ -442,6 +505,12 @@ def run(ctx: core.Run):
                 qops = [rng.choice(QUIET_OPS) for _ in range(k + 1)]
                 api_cases.append((mode, depth, comp, size, sops))
                 api_cases.append((mode, depth, comp, size, qops))
+                # a history with more than one save: every file it writes is examined
+                api_cases.append((mode, depth, comp, size, two_save_history(rng)))
+    for mode in DOC_MODES:
+        # the shapes that must be there whatever the seed draws
+        for shape in ("edit-save-attr", "save-save", "attr-save-attr"):
+            api_cases.append((mode, 8, rng.choice(comps), (5, 4), two_save_history(rng, shape)))
     if not quick:
         for mode in DOC_MODES:
             for op in STRUCT_OPS:
@@ -488,10 +557,11 @@ def run(ctx: core.Run):
         if fh["width"] * fh["height"] > (160 * 160 if quick else 400 * 400):
             continue
         hist = [[rng.choice(["pop-append", "rotate", "remove", "groupLayers"])],
-                [rng.choice(QUIET_OPS[:-1]) for _ in range(2)], ["append"]]
+                [rng.choice(QUIET_OPS[:-1]) for _ in range(2)], ["append"],
+                two_save_history(rng, rng.choice(["edit-save-attr", "edit-save-attr", "attr-save-attr", "save-save"]))]
         if not quick:
             hist += [[rng.choice(STRUCT_OPS)], [rng.choice(STRUCT_OPS), rng.choice(QUIET_OPS)], [rng.choice(QUIET_OPS)] * 2,
-                     ["readSave"] + [rng.choice(QUIET_OPS)]]
+                     ["readSave"] + [rng.choice(QUIET_OPS)], two_save_history(rng), two_save_history(rng, "edit-save-attr")]
         for ops in hist:
             case = {"kind": "fixture", "fixture": f.name, "ops": ops, "op_seed": rng.randrange(1 << 30)}
             ctx.count(("fixture", f.name, tuple(ops)))
@@ -527,8 +597,10 @@ def run(ctx: core.Run):
         "API-created documents {L, LA, RGB, RGBA, CMYK, CMYK+alpha} x depth {8,16,32} x merged-image compression "
         "{RAW, RLE, ZIP, ZIP+prediction} with one imported layer, saved and reopened, then a seeded history that does "
         "(append/insert/extend/setitem/delitem/remove/pop/clear/move/group ...) or does not (attribute edits, read-only "
-        "operations, an intermediate save) touch the structure; documents of the test corpus with the same two kinds of "
-        "history. Each case = (document, history); distinct = distinct (document configuration, history) tuples."
+        "operations, an intermediate save) touch the structure, and histories with several saves (edit* ; save ; "
+        "attribute-edit* ; save, save ; save, attribute-edit ; save ; attribute-edit, edit ; save ; edit, three saves) "
+        "where EVERY file written is examined; documents of the test corpus with the same kinds of history. "
+        "Each case = (document, history); distinct = distinct (document configuration, history) tuples."
     )
     ctx.model_coverage = {
         "modelled": ["PSDImage.save (dirty flag, has_composite)", "PSDImage._merged_planes (supported modes/depths, source "
@@ -544,6 +616,11 @@ def run(ctx: core.Run):
         "it depends on C11.",
         "documents whose extra channel is not taken for the transparency by the readers (layers present, no "
         "merged-transparency block) keep that channel as it is: it is not derived from the layers.",
+        "several saves: a document whose structure was edited regenerates on every later save (theorems save_keeps_dirty, "
+        "second_save_still_regenerates, second_save_uses_second_composite; oracle on every file written). A document that was "
+        "ONLY attribute-edited after open (visible / opacity / offset ...) keeps its original merged image in every file - it no "
+        "longer shows the layers, but that is what the property's second sentence demands (byte-for-byte preservation when "
+        "nothing structural was edited), so it is checked as byte identity and not flagged.",
     ]
     if ctx.tier == "thorough":
         ctx.recheck(["PsdVerif.Props.C17"])
